@@ -17,10 +17,18 @@ import (
 	"bufio"
 	"bytes"
 	"context"
+	"crypto/ecdsa"
+	"crypto/elliptic"
+	crand "crypto/rand"
+	"crypto/tls"
+	"crypto/x509"
+	"crypto/x509/pkix"
 	"encoding/json"
+	"encoding/pem"
 	"fmt"
 	"hash/fnv"
 	"io"
+	"math/big"
 	"net"
 	"net/mail"
 	"os"
@@ -76,6 +84,7 @@ type lcBehaviour struct {
 	SleepMS      int      `json:"retention_sleep_ms"`
 	RetentionOff bool     `json:"retention_off"` // retention period 0 (scanner disabled): Start returns at once, Join must still return
 	Isolate      bool     `json:"isolate"`       // run in a child process; its death is recorded as an event
+	TLS          bool     `json:"tls"`           // smtp: the listener is an SMTPS listener (ForceTLS); clients speak TLS and a hangup is a TCP reset
 }
 
 type lcInput struct {
@@ -221,6 +230,36 @@ func lcMessage(subject string, size int) []byte {
 	return b.Bytes()
 }
 
+// lcSelfSigned writes a throw-away certificate and key for the SMTPS listener.
+func lcSelfSigned(dir, id string) (string, string, error) {
+	priv, err := ecdsa.GenerateKey(elliptic.P256(), crand.Reader)
+	if err != nil {
+		return "", "", err
+	}
+	tmpl := &x509.Certificate{SerialNumber: big.NewInt(1), Subject: pkix.Name{CommonName: "verif.test"}, NotBefore: time.Now().Add(-time.Hour),
+		NotAfter: time.Now().Add(24 * time.Hour), KeyUsage: x509.KeyUsageDigitalSignature, ExtKeyUsage: []x509.ExtKeyUsage{x509.ExtKeyUsageServerAuth},
+		DNSNames: []string{"verif.test"}, IPAddresses: []net.IP{net.ParseIP("127.0.0.1")}}
+	der, err := x509.CreateCertificate(crand.Reader, tmpl, tmpl, &priv.PublicKey, priv)
+	if err != nil {
+		return "", "", err
+	}
+	kb, err := x509.MarshalECPrivateKey(priv)
+	if err != nil {
+		return "", "", err
+	}
+	h := fnv.New64a()
+	h.Write([]byte(id))
+	crt := filepath.Join(dir, fmt.Sprintf("tls-%x.crt", h.Sum64()))
+	key := filepath.Join(dir, fmt.Sprintf("tls-%x.key", h.Sum64()))
+	if err := os.WriteFile(crt, pem.EncodeToMemory(&pem.Block{Type: "CERTIFICATE", Bytes: der}), 0o600); err != nil {
+		return "", "", err
+	}
+	if err := os.WriteFile(key, pem.EncodeToMemory(&pem.Block{Type: "EC PRIVATE KEY", Bytes: kb}), 0o600); err != nil {
+		return "", "", err
+	}
+	return crt, key, nil
+}
+
 func waitClosed(ch <-chan struct{}, d time.Duration) bool {
 	select {
 	case <-ch:
@@ -290,7 +329,18 @@ func runLifecycleBehaviour(lg *lcLog, b lcBehaviour, scratch string) {
 	scanner := storage.NewRetentionScanner(scannerCfg, scanStore)
 	scanner2 := storage.NewRetentionScanner(root.Storage, scanStore) // for a scan that is under way when shutdown is requested
 	var server lcServer
+	var tcpOf = map[int]*net.TCPConn{}
 	if b.Proto == "smtp" {
+		if b.TLS {
+			crt, key, err := lcSelfSigned(scratch, b.ID)
+			if err != nil {
+				fail(err)
+				return
+			}
+			defer os.Remove(crt)
+			defer os.Remove(key)
+			root.SMTP.TLSEnabled, root.SMTP.ForceTLS, root.SMTP.TLSCert, root.SMTP.TLSPrivKey = true, true, crt, key
+		}
 		server = smtp.NewServer(root.SMTP, mgr, ap, host)
 	} else {
 		ps, err := pop3.NewServer(root.POP3, store)
@@ -390,6 +440,12 @@ func runLifecycleBehaviour(lg *lcLog, b lcBehaviour, scratch string) {
 				ev["conn"], ev["banner"], ev["entered"] = "error: "+err.Error(), "", false
 				break
 			}
+			if b.TLS && b.Proto == "smtp" {
+				if tc, ok := conn.(*net.TCPConn); ok {
+					tcpOf[st.S] = tc
+				}
+				conn = tls.Client(conn, &tls.Config{InsecureSkipVerify: true}) // handshake with the first read or write
+			}
 			c := &lcClient{conn: conn, br: bufio.NewReader(conn)}
 			clients[st.S] = c
 			ev["conn"] = "ok"
@@ -446,7 +502,13 @@ func runLifecycleBehaviour(lg *lcLog, b lcBehaviour, scratch string) {
 			withSnap = true
 		case "hangup":
 			if c := clients[st.S]; c != nil && !c.gone {
-				c.conn.Close()
+				if tc := tcpOf[st.S]; tc != nil {
+					// the client dies: no close_notify, the kernel resets the connection
+					_ = tc.SetLinger(0)
+					tc.Close()
+				} else {
+					c.conn.Close()
+				}
 				c.gone = true
 			}
 		case "cancel":
